@@ -487,6 +487,66 @@ Fixpoint run (st : shell) (ops : list op) : result shell :=
 Definition run_from (rss : list rung_system) (md : mode) (ops : list op) : result shell :=
   match shell_init rss md with Ok st => run st ops | Error e => Error e end.
 
+(* ---- SynchronousHyperbandScheduler: _trial_to_config and the config carried by a suggestion ------
+   _suggest, new trial:     config = searcher's config; if max_resource_attr is given:
+                            config[max_resource_attr] = slot level; _trial_to_config[trial_id] = config
+   _suggest, resumed trial: _config = _trial_to_config[trial_id]   (KeyError if missing);
+                            config = dict(_config, **{max_resource_attr: level}) if max_resource_attr is given
+                            else _config
+   A config is (hyperparameter part, value under the key max_resource_attr if present); the
+   hyperparameter part is opaque ([hp] arbitrary).  on_trial_result / on_trial_error / the removable
+   list do not touch _trial_to_config. *)
+Section Configs.
+  Variable hp : Type.
+  Definition config := (hp * option Z)%type.
+  Definition cstate := (shell * list (Z * config))%type.
+
+  Fixpoint clookup (t : Z) (l : list (Z * config)) : option config :=
+    match l with [] => None | (k, v) :: r => if Z.eqb k t then Some v else clookup t r end.
+  Definition set_resource (has_attr : bool) (c : config) (lv : Z) : config :=
+    if has_attr then (fst c, Some lv) else c.
+  Definition is_some {A} (o : option A) : bool := match o with Some _ => true | None => false end.
+
+  (* [new_cfg]: what searcher.get_config would return for a new trial (None: no config) *)
+  Definition suggest_cfg (has_attr : bool) (cs : cstate) (new_cfg : option config)
+    : result (cstate * option (suggestion * config)) :=
+    match suggest (fst cs) (is_some new_cfg) with
+    | Error e => Error e
+    | Ok (st', SNone) => Ok ((st', snd cs), None)
+    | Ok (st', SStart t) =>
+        match lookup t (s_pending st'), new_cfg with
+        | Some (_, s), Some c =>
+            let c' := set_resource has_attr c (level s) in
+            Ok ((st', (t, c') :: snd cs), Some (SStart t, c'))
+        | _, _ => Error EInternal
+        end
+    | Ok (st', SResume t) =>
+        match lookup t (s_pending st') with
+        | None => Error EInternal
+        | Some (_, s) =>
+            match clookup t (snd cs) with
+            | None => Error EKeyNone                      (* KeyError: self._trial_to_config[trial_id] *)
+            | Some c0 => Ok ((st', snd cs), Some (SResume t, set_resource has_attr c0 (level s)))
+            end
+        end
+    end.
+
+  Inductive cop := CSuggest (new_cfg : option config) | COther (o : op).
+  Definition cstep (has_attr : bool) (cs : cstate) (o : cop) : result cstate :=
+    match o with
+    | CSuggest nc => match suggest_cfg has_attr cs nc with Ok (cs', _) => Ok cs' | Error e => Error e end
+    | COther (OSuggest _) => Ok cs                         (* requests for work are CSuggest events *)
+    | COther o' => match step (fst cs) o' with Ok st' => Ok (st', snd cs) | Error e => Error e end
+    end.
+  Fixpoint crun (has_attr : bool) (cs : cstate) (ops : list cop) : result cstate :=
+    match ops with
+    | [] => Ok cs
+    | o :: r => match cstep has_attr cs o with Ok cs' => crun has_attr cs' r | Error e => Error e end
+    end.
+  Definition crun_from (has_attr : bool) (rss : list rung_system) (md : mode) (ops : list cop) : result cstate :=
+    match shell_init rss md with Ok st => crun has_attr (st, []) ops | Error e => Error e end.
+End Configs.
+
 (* ---- DEHB: DifferentialEvolutionHyperbandBracket / ...BracketManager ------- *)
 (* dehb_bracket.py, dehb_bracket_manager.py.  Same bracket skeleton, but: every rung is a list of
    (None, None) slots from the start; on_result does not compare trial ids (the base class
